@@ -1,4 +1,597 @@
 import DS.Lemmas.World
+/-!
+# C08 — a Structure stays a consistent list of atoms in one lattice under any edits
+
+Model: `DS.Model.World` (heap of atoms and structures, `World.stepFull` for every public container
+operation of `structure.py`, tied to the current source by the per-step differential check of
+`harness/c08.py`).  All theorems below quantify over **all** well-formed worlds and **all**
+operation histories (induction on the operation list); side conditions are explicit and are
+evaluated on the pre-state of the step they constrain.
+
+* `refines_list`, `errors_match`  — the atom sequences (as payload lists) and the exception kinds
+  are those of the same history on plain lists (`ListSpec`, CPython `list` semantics).
+* `lattice_inv` — every atom of every live structure refers to that structure's lattice after
+  every step, provided no step links a *shared* atom to a different lattice (`Safe`, needed only by
+  lattice assignment and by insertions that do not copy: `safe_of_copying`);
+  `lattice_inv_unrestricted_false` + three concrete counter-example theorems: the unrestricted
+  statement is false of the current code.
+* `copies_disjoint`, `inserted_copies_fresh` — documented copies share no atom and no lattice with
+  anything that existed before.
+* `selections_share` — slice / index array / mask / tuple selections hold exactly the selected atom
+  objects and the lattice object of their source.
+* `no_alias_partial` — no atom object in two slots, unless a non-copying insertion or a slice
+  assignment listed it twice (proved for the edits of `CoreEdit`; `no_alias_statement` is the full one).
+-/
 namespace DS.Props.C08
 open DS.World
+
+/-! ## 1. refinement of the plain-list specification -/
+
+/-- Agreement hypothesis of the three operations that act on object *identity* (`-`, `-=`,
+`remove`): among the operands, atoms with equal payload are the same atom.  (`ListSpec` works on
+payload values and has no identity.)  Boolean, evaluated on the pre-state. -/
+def subAgreeB (w : World) : Op → Bool
+  | .sub h it => match w.view.atoms h, w.view.iter it with
+    | .ok old, .ok (xs, _) => old.all (fun a => decide (w.pay a ∈ xs.map w.pay → a ∈ xs))
+    | _, _ => true
+  | .isub h it => match w.view.atoms h, w.view.iter it with
+    | .ok old, .ok (xs, _) => old.all (fun a => decide (w.pay a ∈ xs.map w.pay → a ∈ xs))
+    | _, _ => true
+  | .remove h r => match w.view.atoms h, w.view.aref r with
+    | .ok old, .ok x => old.all (fun y => decide (w.pay y = w.pay x → y = x))
+    | _, _ => true
+  | _ => true
+
+theorem subAgreeB_sound {w : World} {op : Op} (h : subAgreeB w op = true) : SubAgree w.pay w.view op := by
+  cases op <;> try trivial
+  case sub hh it =>
+    intro old xs b h1 h2 a ha hm
+    simp only [subAgreeB, h1, h2, List.all_eq_true, decide_eq_true_eq] at h
+    exact h a ha hm
+  case isub hh it =>
+    intro old xs b h1 h2 a ha hm
+    simp only [subAgreeB, h1, h2, List.all_eq_true, decide_eq_true_eq] at h
+    exact h a ha hm
+  case remove hh r =>
+    intro old x h1 h2 y hy he
+    simp only [subAgreeB, h1, h2, List.all_eq_true, decide_eq_true_eq] at h
+    exact h y hy he
+
+/-- one step: the abstraction of the new world is the plain-list step of the abstraction, and the
+outcomes (returned payload / new handle / exception kind) correspond -/
+theorem step_refines {w : World} (hw : Wf w) {op : Op} (hag : subAgreeB w op = true) :
+    (ListSpec.stepFull w.abs op).1 = (w.stepFull op).1.abs ∧
+    World.OutRel (w.stepFull op).1 (w.stepFull op).2 (ListSpec.stepFull w.abs op).2 := by
+  have R := planG_nat (World.abs_view w) op (subAgreeB_sound hag)
+  simp only [ListSpec.stepFull, World.stepFull]
+  rcases h1 : planG w.view op with e | act
+  · rcases h2 : planG (ListSpec.view w.abs) op with e' | act'
+    · simp only [h1, h2, ExRel] at R
+      subst R; exact ⟨rfl, World.OutRel.err _⟩
+    · simp only [h1, h2, ExRel] at R
+  · rcases h2 : planG (ListSpec.view w.abs) op with e' | act'
+    · simp only [h1, h2, ExRel] at R
+    · simp only [h1, h2, ExRel] at R
+      exact World.exec_refines hw (planG_all (World.view_all hw) h1) R
+
+/-- the agreement hypothesis along a history -/
+def HistAgree : World → List Op → Prop
+  | _, [] => True
+  | w, op :: ops => subAgreeB w op = true ∧ HistAgree (w.stepFull op).1 ops
+
+/-- **refines_list**: after any history the payload lists of all live structures are what the same
+history gives on plain lists -/
+theorem refines_list {w : World} (hw : Wf w) (ops : List Op) (hag : HistAgree w ops) :
+    (w.run ops).abs = ListSpec.run w.abs ops := by
+  induction ops generalizing w with
+  | nil => rfl
+  | cons op ops ih =>
+    simp only [World.run, ListSpec.run]
+    rw [(step_refines hw hag.1).1]
+    exact ih (World.stepFull_wf hw op) hag.2
+
+/-- operations that do not act on object identity -/
+def NoIdentityOp : Op → Prop
+  | .sub _ _ => False
+  | .isub _ _ => False
+  | .remove _ _ => False
+  | _ => True
+
+theorem histAgree_of_noIdentity (w : World) (ops : List Op) (h : ∀ op ∈ ops, NoIdentityOp op) : HistAgree w ops := by
+  induction ops generalizing w with
+  | nil => trivial
+  | cons op ops ih =>
+    refine ⟨?_, ih _ (fun o ho => h o (List.mem_cons_of_mem _ ho))⟩
+    have := h op (by simp)
+    cases op <;> first | rfl | exact this.elim
+
+/-- unconditional form for histories without `-`, `-=`, `remove` -/
+theorem refines_list_noIdentity {w : World} (hw : Wf w) (ops : List Op) (h : ∀ op ∈ ops, NoIdentityOp op) :
+    (w.run ops).abs = ListSpec.run w.abs ops :=
+  refines_list hw ops (histAgree_of_noIdentity w ops h)
+
+def errW : Except Err Res → Option Err
+  | .ok _ => none
+  | .error e => some e
+
+def errS : Except Err SRes → Option Err
+  | .ok _ => none
+  | .error e => some e
+
+/-- **errors_match** (one step): the step raises exactly when, and the exception kind that, the
+plain-list operation raises (IndexError for out-of-range indices and bad / duplicate labels,
+ValueError for an extended-slice length mismatch, a zero step, `remove` of an absent atom) -/
+theorem errors_match {w : World} (hw : Wf w) {op : Op} (hag : subAgreeB w op = true) :
+    errW (w.stepFull op).2 = errS (ListSpec.stepFull w.abs op).2 := by
+  obtain ⟨_, h⟩ := step_refines hw hag
+  revert h
+  generalize (w.stepFull op).2 = a
+  generalize (ListSpec.stepFull w.abs op).2 = b
+  intro h
+  cases h <;> rfl
+
+def World.errTrace : World → List Op → List (Option Err)
+  | _, [] => []
+  | w, op :: ops => errW (w.stepFull op).2 :: World.errTrace (w.stepFull op).1 ops
+
+def ListSpec.errTrace : SpecState → List Op → List (Option Err)
+  | _, [] => []
+  | s, op :: ops => errS (ListSpec.stepFull s op).2 :: ListSpec.errTrace (ListSpec.stepFull s op).1 ops
+
+/-- **errors_match** along a whole history -/
+theorem errors_match_trace {w : World} (hw : Wf w) (ops : List Op) (hag : HistAgree w ops) :
+    World.errTrace w ops = ListSpec.errTrace w.abs ops := by
+  induction ops generalizing w with
+  | nil => rfl
+  | cons op ops ih =>
+    simp only [World.errTrace, ListSpec.errTrace]
+    rw [errors_match hw hag.1, (step_refines hw hag.1).1]
+    rw [ih (World.stepFull_wf hw op) hag.2]
+
+/-- the statement without the agreement hypothesis; it is *not* provable for a specification on
+payload values: `s - s.copy()` removes nothing (identity) while the payload lists coincide.  This is a
+property of the specification's level of abstraction, not a defect of the code. -/
+def refines_list_statement : Prop :=
+  ∀ (w : World) (ops : List Op), Wf w → (w.run ops).abs = ListSpec.run w.abs ops
+
+def subCopyHistory : List Op := [.mkStru, .addNew 0 1, .copy 0, .sub 0 (.stru 1)]
+
+theorem refines_list_needs_agreement : ¬ refines_list_statement := by
+  intro h
+  have := h World.empty subCopyHistory World.empty_wf
+  revert this
+  decide
+
+/-! ## 2. the lattice invariant -/
+
+/-- **lattice_inv**: if every atom of every live structure refers to its structure's lattice, this
+still holds after any history each of whose steps satisfies `Safe` in the state it is executed in -/
+theorem lattice_inv {w : World} (hw : Wf w) (hi : w.Inv) (ops : List Op) (hs : World.SafeHist w ops) :
+    (w.run ops).Inv :=
+  World.run_inv hw hi ops hs
+
+theorem safeHist_take {w : World} {ops : List Op} (hs : World.SafeHist w ops) (k : Nat) :
+    World.SafeHist w (ops.take k) := by
+  induction ops generalizing w k with
+  | nil => simpa using hs
+  | cons op ops ih =>
+    cases k with
+    | zero => trivial
+    | succ k => exact ⟨hs.1, ih hs.2 k⟩
+
+/-- … after *every* step of the history -/
+theorem lattice_inv_every_step {w : World} (hw : Wf w) (hi : w.Inv) (ops : List Op) (hs : World.SafeHist w ops)
+    (k : Nat) : (w.run (ops.take k)).Inv :=
+  lattice_inv hw hi _ (safeHist_take hs k)
+
+/-- local form, no side condition: the atoms an operation puts into (or offers to) its target refer
+to the target's lattice afterwards — also when the list edit itself raises -/
+theorem lattice_local {w : World} {op : Op} {p : Plan Nat} (hp : planG w.view op = .ok (.plan p)) :
+    ∀ y ∈ (w.prep p).2.2, (w.stepFull op).1.alat y = World.tgtLat w p := by
+  simp only [World.stepFull, hp, World.exec]
+  exact World.execPlan_links w p
+
+/-- the side condition is needed only by lattice assignment and by insertions that do not copy:
+every other operation (`World.AutoSafe`: all copying forms, indexing, deletion, `+ - *`, in-place
+forms, pickling, inherited list methods) satisfies it in every state where the invariant holds -/
+theorem safe_of_copying {w : World} (hi : w.Inv) {op : Op} (ha : World.AutoSafe op) : World.Safe w op :=
+  World.safe_of_autoSafe hi ha
+
+/-- the side condition restricted to the steps that need it -/
+def SafeHistX : World → List Op → Prop
+  | _, [] => True
+  | w, op :: ops => (World.AutoSafe op ∨ World.Safe w op) ∧ SafeHistX (w.stepFull op).1 ops
+
+/-- **lattice_inv**, explicit form: only lattice assignments, `copy=False` insertions and
+default-flag `extend` of a non-Structure iterable carry a hypothesis -/
+theorem lattice_inv_explicit {w : World} (hw : Wf w) (hi : w.Inv) (ops : List Op) (hs : SafeHistX w ops) :
+    (w.run ops).Inv := by
+  induction ops generalizing w with
+  | nil => exact hi
+  | cons op ops ih =>
+    have h1 : World.Safe w op := by
+      rcases hs.1 with h | h
+      · exact safe_of_copying hi h
+      · exact h
+    exact ih (World.stepFull_wf hw op) (World.stepFull_inv hw hi op h1) hs.2
+
+/-- histories of copying / selecting / deleting operations keep the invariant unconditionally -/
+theorem safeHistX_of_auto (w : World) (ops : List Op) (h : ∀ op ∈ ops, World.AutoSafe op) : SafeHistX w ops := by
+  induction ops generalizing w with
+  | nil => trivial
+  | cons op ops ih => exact ⟨Or.inl (h op (by simp)), ih _ (fun o ho => h o (List.mem_cons_of_mem _ ho))⟩
+
+theorem lattice_inv_copying {w : World} (hw : Wf w) (hi : w.Inv) (ops : List Op) (h : ∀ op ∈ ops, World.AutoSafe op) :
+    (w.run ops).Inv :=
+  lattice_inv_explicit hw hi ops (safeHistX_of_auto w ops h)
+
+/-- the unrestricted statement -/
+def lattice_inv_statement : Prop :=
+  ∀ (w : World) (ops : List Op), Wf w → w.Inv → (w.run ops).Inv
+
+instance (w : World) : Decidable w.Inv := by unfold World.Inv; infer_instance
+
+theorem empty_inv : World.empty.Inv := by
+  intro s hs; simp [World.empty] at hs
+
+/-- `s = Structure(3 atoms); sel = s[1:]; sel.lattice = Lattice()` -/
+def witnessSelection : List Op :=
+  [.mkStru, .addNew 0 1, .addNew 0 2, .addNew 0 3, .getitem 0 (.slice ⟨some 1, none, none⟩), .setLat 1 .fresh]
+
+/-- counter-example 1 (known finding `shared-selection-lattice`): a lattice assigned to a selection
+leaves the owner's atoms referring to a foreign lattice -/
+theorem counterexample_shared_selection : ¬ (World.empty.run witnessSelection).Inv := by decide
+
+/-- **the unrestricted lattice statement is false** -/
+theorem lattice_inv_unrestricted_false : ¬ lattice_inv_statement :=
+  fun h => counterexample_shared_selection (h World.empty witnessSelection World.empty_wf empty_inv)
+
+/-- `s = Structure(); t = Structure(1 atom); s.extend(t.tolist())` (default copy flag) -/
+def witnessExtendDefault : List Op :=
+  [.mkStru, .mkStru, .addNew 1 12, .extend 0 (.tolist 1) .dflt]
+
+/-- counter-example 2 (finding `extend-default-adopts-foreign-atom`): `extend` with the *default*
+copy flag and a plain list takes over another structure's atom objects and re-links them -/
+theorem counterexample_extend_default : ¬ (World.empty.run witnessExtendDefault).Inv := by decide
+
+/-- `s.append(t[0], copy=False)` -/
+def witnessNoCopy : List Op :=
+  [.mkStru, .mkStru, .addNew 1 12, .append 0 (.mem 1 0) .no]
+
+/-- counter-example 3 (finding `shared-nocopy-lattice`) -/
+theorem counterexample_nocopy : ¬ (World.empty.run witnessNoCopy).Inv := by decide
+
+/-- `s.__setitem__(9, t[0], copy=False)` raises IndexError … -/
+def witnessFailedOp : List Op :=
+  [.mkStru, .mkStru, .addNew 1 12, .setitem 0 9 (.mem 1 0) false]
+
+/-- … after it has already re-linked `t[0]` (finding `shared-nocopy-lattice:failed-op`) -/
+theorem counterexample_failed_op :
+    World.errTrace World.empty witnessFailedOp = [none, none, none, some .index] ∧
+    ¬ (World.empty.run witnessFailedOp).Inv := by decide
+
+/-- none of the counter-example histories satisfies the side condition (consequence of `lattice_inv`) -/
+theorem witnesses_not_safe :
+    ¬ World.SafeHist World.empty witnessSelection ∧ ¬ World.SafeHist World.empty witnessExtendDefault ∧
+    ¬ World.SafeHist World.empty witnessNoCopy ∧ ¬ World.SafeHist World.empty witnessFailedOp :=
+  ⟨fun h => counterexample_shared_selection (lattice_inv World.empty_wf empty_inv _ h),
+   fun h => counterexample_extend_default (lattice_inv World.empty_wf empty_inv _ h),
+   fun h => counterexample_nocopy (lattice_inv World.empty_wf empty_inv _ h),
+   fun h => counterexample_failed_op.2 (lattice_inv World.empty_wf empty_inv _ h)⟩
+
+
+/-! ## 3. documented copies share nothing, selections share -/
+
+/-- operations documented to return a new Structure that is a copy -/
+inductive IsCopyOp : Op → Prop
+  | copy (h : Nat) : IsCopyOp (.copy h)
+  | add (h : Nat) (it : Iter) : IsCopyOp (.add h it)
+  | sub (h : Nat) (it : Iter) : IsCopyOp (.sub h it)
+  | mul (h : Nat) (n : Int) : IsCopyOp (.mul h n)
+  | pickle (h : Nat) (k : Nat) : IsCopyOp (.pickle h k)
+  | deepcopy (h : Nat) : IsCopyOp (.deepcopy h)
+
+/-- **copies_disjoint** (core): a successful copy operation returns the next handle; every atom id of
+the result and its lattice id are freshly allocated -/
+theorem copies_fresh {w : World} {op : Op} (hc : IsCopyOp op) {r : Nat}
+    (hok : (w.stepFull op).2 = .ok (.stru r)) :
+    r = w.strus.length ∧ (∀ a ∈ (w.stepFull op).1.atomsOf r, w.nextA ≤ a) ∧ (w.stepFull op).1.latOf r = w.nextL := by
+  have key : (∃ p : Plan Nat, planG w.view op = .ok (.plan p) ∧ p.tgt = .new .fresh ∧ p.edit = .replace ∧
+      p.flags = allTrue p.inc) →
+      r = w.strus.length ∧ (∀ a ∈ (w.stepFull op).1.atomsOf r, w.nextA ≤ a) ∧ (w.stepFull op).1.latOf r = w.nextL := by
+    intro ⟨p, hp, ht, he, hf⟩
+    simp only [World.stepFull, hp, World.exec] at hok ⊢
+    obtain ⟨h1, h2, h3, _⟩ := World.execPlan_new_fresh w p ht he hf
+    rw [h1] at hok
+    cases hok
+    exact ⟨rfl, h2, h3⟩
+  cases hc with
+  | copy h =>
+    rcases h1 : w.view.atoms h with e | old
+    · simp [World.stepFull, planG, h1] at hok
+    · exact key (by simp only [planG, h1]; exact ⟨_, rfl, rfl, rfl, rfl⟩)
+  | add h it =>
+    rcases h1 : w.view.atoms h with e | old
+    · simp [World.stepFull, planG, h1] at hok
+    · rcases h2 : w.view.iter it with e | ⟨xs, b⟩
+      · simp [World.stepFull, planG, h1, h2] at hok
+      · exact key (by simp only [planG, h1, h2]; exact ⟨_, rfl, rfl, rfl, rfl⟩)
+  | sub h it =>
+    rcases h1 : w.view.atoms h with e | old
+    · simp [World.stepFull, planG, h1] at hok
+    · rcases h2 : w.view.iter it with e | ⟨xs, b⟩
+      · simp [World.stepFull, planG, h1, h2] at hok
+      · exact key (by simp only [planG, h1, h2]; exact ⟨_, rfl, rfl, rfl, rfl⟩)
+  | mul h n =>
+    rcases h1 : w.view.atoms h with e | old
+    · simp [World.stepFull, planG, h1] at hok
+    · exact key (by simp only [planG, h1]; exact ⟨_, rfl, rfl, rfl, rfl⟩)
+  | deepcopy h =>
+    rcases h1 : w.view.atoms h with e | old
+    · simp [World.stepFull, planG, h1] at hok
+    · exact key (by simp only [planG, h1]; exact ⟨_, rfl, rfl, rfl, rfl⟩)
+  | pickle h k =>
+    rcases h1 : w.view.atoms h with e | old
+    · simp [World.stepFull, planG, h1] at hok
+    · by_cases hk : 2 ≤ k
+      · exact key (by simp only [planG, h1, hk, if_true]; exact ⟨_, rfl, rfl, rfl, rfl⟩)
+      · have hp : planG w.view (.pickle h k) = .ok (.copyShape h old) := by simp only [planG, h1, hk, if_false]
+        simp only [World.stepFull, hp] at hok ⊢
+        obtain ⟨g1, g2, g3⟩ := World.exec_copyShape_fresh w h old
+        rw [g1] at hok
+        cases hok
+        exact ⟨rfl, g2, g3⟩
+
+/-- **copies_disjoint**: the result of a copy operation shares no atom object with any structure or
+free atom that existed before, and its lattice object is none of the earlier lattices -/
+theorem copies_disjoint {w : World} (hw : Wf w) {op : Op} (hc : IsCopyOp op) {r : Nat}
+    (hok : (w.stepFull op).2 = .ok (.stru r)) :
+    (∀ a ∈ (w.stepFull op).1.atomsOf r, (∀ s ∈ w.strus, a ∉ s.atoms) ∧ a ∉ w.pool) ∧
+    (∀ s ∈ w.strus, s.lat ≠ (w.stepFull op).1.latOf r) := by
+  obtain ⟨_, h2, h3⟩ := copies_fresh hc hok
+  constructor
+  · intro a ha
+    have := h2 a ha
+    exact ⟨fun s hs hin => by have := hw.atoms s hs a hin; omega, fun hin => by have := hw.pool a hin; omega⟩
+  · intro s hs heq
+    have := hw.lats s hs
+    omega
+
+/-- operations documented to insert copies of the given atoms into structure `h` -/
+inductive CopiesInto : Op → Nat → Prop
+  | appendD (h : Nat) (a : ARef) : CopiesInto (.append h a .dflt) h
+  | appendY (h : Nat) (a : ARef) : CopiesInto (.append h a .yes) h
+  | insertD (h : Nat) (i : Int) (a : ARef) : CopiesInto (.insert h i a .dflt) h
+  | insertY (h : Nat) (i : Int) (a : ARef) : CopiesInto (.insert h i a .yes) h
+  | extendY (h : Nat) (it : Iter) : CopiesInto (.extend h it .yes) h
+  | extendS (h h' : Nat) : CopiesInto (.extend h (.stru h') .dflt) h
+  | iadd (h : Nat) (it : Iter) : CopiesInto (.iadd h it) h
+  | imul (h : Nat) (n : Int) : CopiesInto (.imul h n) h
+  | setitem (h : Nat) (i : Int) (a : ARef) : CopiesInto (.setitem h i a true) h
+
+/-- **copies_disjoint** for in-place insertions: whatever the target holds afterwards was a member
+before or is a freshly allocated copy — the caller's atom objects are never inserted -/
+theorem inserted_copies_fresh {w : World} (hw : Wf w) {op : Op} {h : Nat} (hc : CopiesInto op h) :
+    ∀ a ∈ (w.stepFull op).1.atomsOf h, a ∈ w.atomsOf h ∨ w.nextA ≤ a := by
+  have key : (∃ p : Plan Nat, planG w.view op = .ok (.plan p) ∧ p.tgt = .old h ∧ p.flags = allTrue p.inc) →
+      ∀ a ∈ (w.stepFull op).1.atomsOf h, a ∈ w.atomsOf h ∨ w.nextA ≤ a := by
+    intro ⟨p, hp, ht, hf⟩
+    simp only [World.stepFull, hp, World.exec]
+    exact World.execPlan_old_fresh hw p h ht hf
+  have err : ∀ e, planG w.view op = .error e → ∀ a ∈ (w.stepFull op).1.atomsOf h, a ∈ w.atomsOf h ∨ w.nextA ≤ a := by
+    intro e he a ha
+    simp only [World.stepFull, he] at ha
+    exact Or.inl ha
+  cases hc with
+  | appendD h a | appendY h a =>
+    rcases h1 : w.view.atoms h with e | old
+    · exact err e (by simp only [planG, h1])
+    · rcases h2 : w.view.aref a with e | x
+      · exact err e (by simp only [planG, h1, h2])
+      · exact key (by simp only [planG, h1, h2]; exact ⟨_, rfl, rfl, by first | rfl | simp [allTrue, copyFlags]⟩)
+  | insertD h i a | insertY h i a =>
+    rcases h1 : w.view.atoms h with e | old
+    · exact err e (by simp only [planG, h1])
+    · rcases h2 : w.view.aref a with e | x
+      · exact err e (by simp only [planG, h1, h2])
+      · exact key (by simp only [planG, h1, h2]; exact ⟨_, rfl, rfl, by first | rfl | simp [allTrue, copyFlags]⟩)
+  | setitem h i a =>
+    rcases h1 : w.view.atoms h with e | old
+    · exact err e (by simp only [planG, h1])
+    · rcases h2 : w.view.aref a with e | x
+      · exact err e (by simp only [planG, h1, h2])
+      · exact key (by simp only [planG, h1, h2]; exact ⟨_, rfl, rfl, by first | rfl | simp [allTrue, copyFlags]⟩)
+  | extendY h it =>
+    rcases h1 : w.view.atoms h with e | old
+    · exact err e (by simp only [planG, h1])
+    · rcases h2 : w.view.iter it with e | ⟨xs, b⟩
+      · exact err e (by simp only [planG, h1, h2])
+      · exact key (by simp only [planG, h1, h2]; exact ⟨_, rfl, rfl, by first | rfl | simp [allTrue, copyFlags]⟩)
+  | extendS h h' =>
+    rcases h1 : w.view.atoms h with e | old
+    · exact err e (by simp only [planG, h1])
+    · rcases h2 : w.view.atoms h' with e | xs
+      · exact err e (by simp only [planG, h1, View.iter, h2])
+      · exact key (by simp only [planG, h1, View.iter, h2]; exact ⟨_, rfl, rfl, by first | rfl | simp [allTrue, copyFlags]⟩)
+  | iadd h it =>
+    rcases h1 : w.view.atoms h with e | old
+    · exact err e (by simp only [planG, h1])
+    · rcases h2 : w.view.iter it with e | ⟨xs, b⟩
+      · exact err e (by simp only [planG, h1, h2])
+      · exact key (by simp only [planG, h1, h2]; exact ⟨_, rfl, rfl, by first | rfl | simp [allTrue, copyFlags]⟩)
+  | imul h n =>
+    rcases h1 : w.view.atoms h with e | old
+    · exact err e (by simp only [planG, h1])
+    · by_cases hn : n ≤ 0
+      · exact key (by simp only [planG, h1, hn, if_true]; exact ⟨_, rfl, rfl, by first | rfl | simp [allTrue, copyFlags]⟩)
+      · exact key (by simp only [planG, h1, hn, if_false]; exact ⟨_, rfl, rfl, by first | rfl | simp [allTrue, copyFlags]⟩)
+
+/-- **selections_share**: indexing by slice, index array, boolean mask, tuple or list returns the
+next handle; the new structure refers to the *same* lattice as its source and holds atom objects of
+the source only -/
+theorem selections_share {w : World} {h : Nat} {ix : Index} {r : Nat}
+    (hok : (w.stepFull (.getitem h ix)).2 = .ok (.stru r)) :
+    r = w.strus.length ∧ (w.stepFull (.getitem h ix)).1.latOf r = w.latOf h ∧
+    ∃ idxs, (w.stepFull (.getitem h ix)).1.atomsOf r = pick (w.atomsOf h) idxs := by
+  rcases h1 : w.view.atoms h with e | old
+  · simp [World.stepFull, planG, h1] at hok
+  · have hat := (World.view_atoms_ok h1).1
+    have key : ∀ xs, planIndex w.view h old ix = .ok (selPlan h xs) →
+        r = w.strus.length ∧ (w.stepFull (.getitem h ix)).1.latOf r = w.latOf h ∧
+        (w.stepFull (.getitem h ix)).1.atomsOf r = xs := by
+      intro xs hp
+      have hp' : planG w.view (.getitem h ix) = .ok (selPlan h xs) := by simp only [planG, h1, hp]
+      simp only [World.stepFull, hp', selPlan, World.exec] at hok ⊢
+      obtain ⟨g1, g2, g3⟩ := World.execPlan_new_sel w
+        { tgt := .new (.ofStru h), pre := none, inc := xs, flags := xs.map (fun _ => false), edit := .replace } h rfl rfl rfl
+      rw [g1] at hok
+      cases hok
+      exact ⟨rfl, g3, g2⟩
+    have atomRes : ∀ a, planIndex w.view h old ix = .ok (.retAtom a h) → False := by
+      intro a hp
+      have hp' : planG w.view (.getitem h ix) = .ok (.retAtom a h) := by simp only [planG, h1, hp]
+      simp [World.stepFull, hp', World.exec] at hok
+    have errRes : ∀ e, planIndex w.view h old ix = .error e → False := by
+      intro e hp
+      have hp' : planG w.view (.getitem h ix) = .error e := by simp only [planG, h1, hp]
+      simp [World.stepFull, hp'] at hok
+    rw [hat]
+    cases ix with
+    | int i =>
+      simp only [planIndex] at atomRes errRes
+      rcases hn : normIdx old.length i with _ | k
+      · exact (errRes .index (by simp [hn])).elim
+      · rcases hk : old[k]? with _ | a
+        · exact (errRes .index (by simp [hn, hk])).elim
+        · exact (atomRes a (by simp [hn, hk])).elim
+    | label p =>
+      simp only [planIndex] at atomRes errRes
+      rcases hn : findLabel w.view.lab old p with e | k
+      · exact (errRes e (by simp [hn])).elim
+      · rcases hk : old[k]? with _ | a
+        · exact (errRes .index (by simp [hn, hk])).elim
+        · exact (atomRes a (by simp [hn, hk])).elim
+    | slice sl =>
+      rcases hn : sliceAdjust old.length sl with e | a
+      · exact (errRes e (by simp [planIndex, hn])).elim
+      · obtain ⟨k1, k2, k3⟩ := key (pick old (sliceIdx a)) (by simp only [planIndex, hn])
+        exact ⟨k1, k2, _, k3⟩
+    | arr is =>
+      rcases hn : mapE (normIdxE old.length) is with e | idxs
+      · exact (errRes e (by simp [planIndex, hn])).elim
+      · obtain ⟨k1, k2, k3⟩ := key (pick old idxs) (by simp only [planIndex, hn])
+        exact ⟨k1, k2, _, k3⟩
+    | mask bs =>
+      by_cases hb : bs.length ≠ old.length ∧ bs ≠ []
+      · exact (errRes .index (by simp [planIndex, hb])).elim
+      · obtain ⟨k1, k2, k3⟩ := key (pick old (trueIdx bs 0)) (by simp only [planIndex, hb, if_false])
+        exact ⟨k1, k2, _, k3⟩
+    | tuple ks =>
+      by_cases hk : ks = []
+      · exact (errRes .value (by simp [planIndex, hk])).elim
+      · rcases hn : mapE (resolveKey w.view.lab old) ks with e | is
+        · exact (errRes e (by simp [planIndex, hk, hn])).elim
+        · rcases hm : mapE (normIdxE old.length) is with e | idxs
+          · exact (errRes e (by simp [planIndex, hk, hn, hm])).elim
+          · obtain ⟨k1, k2, k3⟩ := key (pick old idxs) (by simp only [planIndex, hk, if_false, hn, hm])
+            exact ⟨k1, k2, _, k3⟩
+    | keys ks =>
+      rcases hn : mapE (resolveKey w.view.lab old) ks with e | is
+      · exact (errRes e (by simp [planIndex, hn])).elim
+      · rcases hm : mapE (normIdxE old.length) is with e | idxs
+        · exact (errRes e (by simp [planIndex, hn, hm])).elim
+        · obtain ⟨k1, k2, k3⟩ := key (pick old idxs) (by simp only [planIndex, hn, hm])
+          exact ⟨k1, k2, _, k3⟩
+
+/-- exact form for slices: the selection is the CPython slice of the member list -/
+theorem selections_share_slice {w : World} {h : Nat} {sl : Slice} {old : List Nat} {a : Int × Int × Int}
+    (h1 : w.view.atoms h = .ok old) (ha : sliceAdjust old.length sl = .ok a) :
+    (w.stepFull (.getitem h (.slice sl))).2 = .ok (.stru w.strus.length) ∧
+    (w.stepFull (.getitem h (.slice sl))).1.atomsOf w.strus.length = pick old (sliceIdx a) ∧
+    (w.stepFull (.getitem h (.slice sl))).1.latOf w.strus.length = w.latOf h := by
+  have hp : planG w.view (.getitem h (.slice sl)) = .ok (selPlan h (pick old (sliceIdx a))) := by
+    simp only [planG, h1, planIndex, ha]
+  simp only [World.stepFull, hp, selPlan, World.exec]
+  exact World.execPlan_new_sel w _ h rfl rfl rfl
+
+
+/-! ## 4. no atom object in two slots -/
+
+/-- **no_alias** (proved part): if no live structure holds an atom twice, this still holds after any
+history whose steps satisfy `World.DupFree` — on the pre-state of each step: the atoms taken over
+*without copying* (explicit `copy=False`, the members a slice assignment keeps, the members an
+index array / tuple selects) are pairwise different and are not members that stay in the target.
+Covered edits: everything except assignment to an extended slice (step ≠ 1) and pickling with
+protocol 0/1 (see `no_alias_statement`). -/
+theorem no_alias_partial {w : World} (hw : Wf w) (hn : w.NodupInv) (ops : List Op) (hd : World.DupFreeHist w ops) :
+    (w.run ops).NodupInv :=
+  World.run_nodup hw hn ops hd
+
+/-- the same side condition without the restriction to the covered edits -/
+def DupRequestFree (w : World) (op : Op) : Prop :=
+  match planG w.view op with
+  | .ok (.plan p) =>
+    (World.keptOf p.inc p.flags).Nodup ∧ (∀ y ∈ World.keptOf p.inc p.flags, y ∉ remain p.edit (World.oldOf w p))
+  | .ok (.copyShape _ xs) => xs.Nodup
+  | _ => True
+
+def DupRequestFreeHist : World → List Op → Prop
+  | _, [] => True
+  | w, op :: ops => DupRequestFree w op ∧ DupRequestFreeHist (w.stepFull op).1 ops
+
+/-- the full statement (extended-slice assignment and protocol-0/1 pickling included); not proved
+here — the differential check exercises these two forms on every run -/
+def no_alias_statement : Prop :=
+  ∀ (w : World) (ops : List Op), Wf w → w.NodupInv → DupRequestFreeHist w ops → (w.run ops).NodupInv
+
+/-- a duplicate that the caller asked for does end up in two slots: `s.append(s[0], copy=False)` -/
+theorem alias_when_asked :
+    ¬ (World.empty.run [.mkStru, .addNew 0 1, .append 0 (.mem 0 0) .no]).NodupInv := by
+  intro h
+  have := h ⟨[0, 0], 1, true⟩ (by decide) rfl
+  revert this
+  decide
+
+theorem empty_nodupInv : World.empty.NodupInv := by
+  intro s hs; simp [World.empty] at hs
+
+/-! ## non-vacuity: a concrete history that satisfies every hypothesis used above -/
+
+instance decHistAgree : (w : World) → (ops : List Op) → Decidable (HistAgree w ops)
+  | _, [] => isTrue trivial
+  | w, op :: ops => @instDecidableAnd _ _ _ (decHistAgree (w.stepFull op).1 ops)
+
+/-- `s = Structure(2 atoms); a = Atom(); s.append(a, copy=False); c = s.copy(); c.lattice = Lattice();
+sel = s[1:]; d = s - sel; c.extend([a], copy=True); s -= sel.tolist(); s.remove(s[0]); c[::2] = c (ValueError); …` -/
+def goodHistory : List Op :=
+  [.mkStru, .addNew 0 1, .addNew 0 2, .mkAtom 3, .append 0 (.pool 0) .no, .copy 0, .setLat 1 .fresh,
+   .getitem 0 (.slice ⟨some 1, none, none⟩), .sub 0 (.stru 2), .extend 1 (.list [.pool 0]) .yes,
+   .isub 0 (.tolist 2), .remove 0 (.mem 0 0), .setslice 1 ⟨none, none, some 2⟩ (.stru 1) true,
+   .getitem 1 (.tuple [.label 1, .int (-1)]), .imul 1 2, .pickle 1 2, .pickle 1 0, .setitem 1 9 (.pool 0) true,
+   .setLat 3 (.ofStru 0), .mul 3 (-1), .pop 1 none, .sort 1, .delslice 1 ⟨some 0, none, some 3⟩]
+
+example : Wf World.empty ∧ World.empty.Inv := ⟨World.empty_wf, empty_inv⟩
+example : HistAgree World.empty goodHistory := by decide
+example : World.SafeHist World.empty goodHistory := by decide
+example : (World.empty.run goodHistory).Inv := lattice_inv World.empty_wf empty_inv _ (by decide)
+example : (World.empty.run goodHistory).abs = ListSpec.run World.empty.abs goodHistory :=
+  refines_list World.empty_wf _ (by decide)
+/-- the history really exercises the error path and the structures are not trivial -/
+example : World.errTrace World.empty goodHistory =
+    [none, none, none, none, none, none, none, none, none, none, none, none, some .value, none, none, none, none,
+     some .index, none, none, none, none, none] := by decide
+example : (World.empty.run goodHistory).abs.lists.length = 8 := by decide
+/-- for `no_alias_partial`: a plain slice assignment that keeps a member, a `copy=False` append of a
+free atom, an index-array selection, protocol-2 pickling -/
+def goodHistory2 : List Op :=
+  [.mkStru, .addNew 0 1, .addNew 0 2, .mkAtom 3, .append 0 (.pool 0) .no, .copy 0,
+   .getitem 0 (.arr [2, 0]), .setslice 0 ⟨some 1, none, none⟩ (.list [.mem 0 2, .mem 1 0]) true,
+   .extend 0 (.tolist 1) .dflt, .imul 1 2, .pickle 1 2, .sub 0 (.stru 2), .insert 1 (-1) (.mem 1 0) .dflt,
+   .setitem 1 0 (.mem 0 0) true, .sort 0, .reverse 1, .delslice 1 ⟨none, none, some (-2)⟩]
+example : World.DupFreeHist World.empty goodHistory2 := by decide
+example : (World.empty.run goodHistory2).NodupInv := no_alias_partial World.empty_wf empty_nodupInv _ (by decide)
+example : (World.empty.run goodHistory2).abs.lists =
+    [some [1, 1, 1, 2, 3, 3], some [1, 1, 2], some [3, 1], some [1, 2, 3, 1, 2, 3], some [1, 1, 2, 3]] := by decide
+example : IsCopyOp (.sub 0 (.stru 2)) ∧ CopiesInto (.imul 1 2) 1 := ⟨.sub _ _, .imul _ _⟩
+
 end DS.Props.C08
